@@ -8,6 +8,7 @@ import RsModel.Lemmas.ReplaceOrig
 import RsModel.Lemmas.WarmStrict
 import RsModel.Lemmas.ProvWarm
 import RsModel.Lemmas.WarmLinesF
+import RsModel.Lemmas.HistoryDecl
 /-!
 # C11 — produced source maps and chunk streams are well-formed
 -/
@@ -272,5 +273,19 @@ theorem c11_every_history_map_lines_strict (s : Src) (hk : s.NoCR) (hn : s.ids.N
     have := c11_map_lines_strict s.strip (Src.strip_modeHypL s h) hn' [] (cold_nil _) true hsmall1 sm (by simp only [getMap]; exact hsm)
     rw [Src.strip_src] at this
     exact this
+
+/-- **the stream clause over every call history**: on a tree with CachedSource nodes (none beneath a ReplaceSource), cold at the
+start, every call of every history of streaming calls — all four option sets, replays from stored maps included — announces every
+source and name index before use and densely (`DeclOK`): a stored map's indices lie inside its own tables
+(`mapOfEvs_idxOK`, `mapOfEvs_idxOK_lines`), so the replay announces what it uses.  Hypotheses per option set as in the
+every-history theorems of C10. -/
+theorem c11_every_history_decl (s : Src) (hk : s.NoCR) (hn : s.ids.Nodup) (σ : Store) (hc : Cold σ s.ids)
+    (calls : List Opts) (k : Nat) (o : Opts) (hcall : calls[k]? = some o) :
+    ∃ r, (runCalls s calls σ).1[k]? = some r
+      ∧ (o = ⟨true, false⟩ → s.WarmHyp → DeclOK 0 0 r.evs)
+      ∧ (o = ⟨true, true⟩ → s.ModeHypC → s.SmallF → DeclOK 0 0 r.evs)
+      ∧ (o = ⟨false, false⟩ → s.WF → s.WarmHypL → DeclOK 0 0 r.evs)
+      ∧ (o = ⟨false, true⟩ → s.ModeHypL → s.SmallFL → DeclOK 0 0 r.evs) :=
+  history_decl s hk hn σ hc calls k o hcall
 
 end Rs
